@@ -10,7 +10,7 @@ C['C01']=dict(tech="TLA+ reference semantics (NlSem) checked by TLC against reco
  ref="DESIGN.md 5 C01, 4",
  note="Trusted: TLC, the Json module, the recorder's projection of values (harness/src/proj.rs), rustc's f64/char primitives. Bounded: programs are sampled (seeded) plus the repository corpus; integers beyond 2^29 and inexact floats are skipped as DontKnow and counted.")
 C['C02']=dict(tech="TLA+ bytecode-contract verifier (NlBcSafe): TLC explores the abstract machine (region, ip, height) over the real compiler's output, all paths; effect table bound to the real VM by recorded dispatch events; guarded probes at the unsafe sites",
- text="For every accepted input the real compiler's bytecode is model-checked exhaustively (both branches of every conditional jump) against the machine's unchecked contracts: decodability, jump targets on boundaries of the same region, no fall-through, operands present above the locals, constant/local/builtin numbers in range, one height per instruction. The stack effect assumed per opcode is validated against the real machine's recorded dispatches, and probes at pop/fetch/operand reads/Call/CallBuiltin report any out-of-contract access on executed paths.",
+ text="For every accepted input the real compiler's bytecode is model-checked exhaustively (both branches of every conditional jump) against the machine's unchecked contracts: decodability, jump targets on boundaries of the same region, no fall-through, operands present above the locals, constant/local/builtin numbers in range, one height per instruction. The stack effect assumed per opcode is validated against the real machine's recorded dispatches, and probes at pop/fetch/operand reads/Call/CallBuiltin report any out-of-contract access on executed paths. Inputs are generated programs, token edits, random token sequences and a hand-written list of placement corners (stop / volgende / antwoord in every unusual place: a function literal in a loop in a function, loop conditions, operands, arguments, nested blocks); the call template set (arities 0-4, 16, 254, 255; bodies ending in every way a body can end) additionally goes through the frame discipline of NlFrames.",
  ref="DESIGN.md 5 C02",
  note="Trusted: TLC, the exported opcode table, the recorder. Exhaustive per program; programs are sampled (generated, token edits, random token sequences that compile).")
 def entry(pid):
